@@ -204,7 +204,7 @@ def execute(h: Dict[str, Any]) -> Dict[str, Any]:
     probes = {k: 0 for k in ["stale_owned_placed", "stale_realname_placed", "foreign_placed", "empty_pkg_dir_placed", "committed_copy_placed",
                              "cleanup_removed_stale", "stale_overwritten", "fault_fired", "fault_not_reached", "faulted_run_failed",
                              "faulted_run_left_partial", "other_plugin_tree", "merge_files", "different_model_before", "listing_permuted",
-                             "test_dir_used", "uuid_checked"]}
+                             "test_dir_used", "uuid_checked", "ascii_locale"]}
     faults_fired: Dict[str, int] = {}
     evlog: List[Any] = []
     try:
@@ -296,6 +296,8 @@ def execute(h: Dict[str, Any]) -> Dict[str, Any]:
             rj = gw.run_generator(w, plugin, str(out), str(td), files_M, env)
             if env.get("ls_seed") is not None:
                 probes["listing_permuted"] += 1
+            if env.get("locale") == "C":
+                probes["ascii_locale"] += 1
             evlog.append(["FINAL", rj["rc"], len(rj["events"])])
             if rj["rc"] != 0:
                 last = rj["stderr_tail"].strip().splitlines()[-1][:300] if rj["stderr_tail"].strip() else "no stderr"
@@ -383,7 +385,7 @@ def minimise(h: Dict[str, Any], sig: str) -> Tuple[Dict[str, Any], Dict[str, Any
     # fewer final runs, default environments
     for cand_fn in (
         lambda c: c.update(finals=c["finals"][:1]),
-        lambda c: c.update(finals=[{"hashseed": "0", "uuid_seed": None, "ls_seed": None}] * len(c["finals"])),
+        lambda c: c.update(finals=[{"hashseed": "0", "uuid_seed": None, "ls_seed": None, "locale": None}] * len(c["finals"])),
         lambda c: c.update(test_dir=False),
         lambda c: c["model"].pop("split", None),
         lambda c: c["model"].pop("compact", None),
@@ -416,7 +418,7 @@ def minimise(h: Dict[str, Any], sig: str) -> Tuple[Dict[str, Any], Dict[str, Any
                 if simpl == "nofault":
                     c["ops"][i][3] = None
                 elif simpl == "defenv":
-                    c["ops"][i][2] = {"hashseed": "0", "uuid_seed": None, "ls_seed": None}
+                    c["ops"][i][2] = {"hashseed": "0", "uuid_seed": None, "ls_seed": None, "locale": None}
                 else:
                     c["ops"][i][1] = copy.deepcopy(c["model"])
                 if c != best:
@@ -588,7 +590,7 @@ def main(argv: List[str]) -> int:
         "skipped_reference_failed": skipped,
         "determinism": {"rerun_other_worker_count": det_checked, "mismatches": det_mismatch},
         "real_vs_stub": {"real": ["generator CLI, model loader, all four plugins (current working tree)", "CPython, pathlib, json, file system (tmpfs)"],
-                         "simulated": ["PYTHONHASHSEED", "uuid.uuid4 stream", "os.scandir/os.listdir order", "process kill / ENOSPC / EIO at write-open, during write (torn), at unlink, at mkdir",
+                         "simulated": ["PYTHONHASHSEED", "uuid.uuid4 stream", "default text encoding (ASCII C locale vs UTF-8)", "os.scandir/os.listdir order", "process kill / ENOSPC / EIO at write-open, during write (torn), at unlink, at mkdir",
                                        "initial directory contents"], "stub": []},
         "violation_signatures": sorted(first_fail),
     }
